@@ -24,6 +24,7 @@ cd /verif
 for p in "$@"; do
   out=$(VERIF_REPO=$wt timeout 900 ./check $p ${TIER:-quick} 2>&1); code=$?
   echo "check $p exit=$code: $(echo "$out" | grep -m1 'violation class' ) $(echo "$out" | grep -A2 -m1 'violation class' | sed -n 2p | cut -c1-200)"
+  [ $code -ge 2 ] && echo "$out" | tail -5 | cut -c1-300
 done
 rm -f /tmp/ev-$name.*.log
 cd /; git -C /repo worktree remove --force $wt
